@@ -22,7 +22,7 @@ pub fn check() -> Check {
         spec: CheckSpec {
             id: "C20",
             level: "fault_enumeration",
-            rule: "one recorded plan = 8-40 generated ops (set/del/get with entries below and above the 8 KiB write buffer, merges, reopen cycles; sync=always in a third of the plans so that fsync calls exist). The plan is run once fault-free to count its fallible calls on the store directory, then rerun once per call index with exactly that write/create/fsync/unlink failing (ENOSPC or EIO). One evaluation = one rerun. Oracle: the operation in whose span the shim injected the failure must return an error; every other operation must succeed and agree with the map model (the faulted operation's key may read as before or after, also differently across a restart); a failed open must succeed when retried; after the plan the store is closed, reopened (must succeed), every key re-read, and a short continuation must work. Exhaustive over call positions per plan; plans are sampled. Non-trivial/distinct = distinct (plan, position actually hit); the (operation, call kind, file kind) sites hit are listed as kinds.",
+            rule: "one recorded plan = 8-40 generated ops (set/del/get with entries below and above the 8 KiB write buffer, merges, reopen cycles; sync=always in a third of the plans so that fsync calls exist). The plan is run once fault-free to count its fallible calls on the store directory, then rerun once per call index with exactly that write/create/fsync/unlink failing (ENOSPC or EIO). One evaluation = one rerun. Oracle: the operation in whose span the shim injected the failure must return an error; every other operation must succeed and agree with the map model (the faulted operation's key may read as before or after, also differently across a restart); a failed open must succeed when retried; after the plan the store is closed, reopened (must succeed), every key re-read, and a short continuation must work. In a quarter of the plans the positions also include the read side (opening a data or hint file for reading, mapping it), which the property's quantifier does not list but its statement covers. Exhaustive over call positions per plan; plans are sampled. Non-trivial/distinct = distinct (plan, position actually hit); the (operation, call kind, file kind) sites hit are listed as kinds.",
             assumptions: vec![
                 "faults are injected by the shim at the libc boundary: the call returns -1/errno and has no effect",
                 "in half of the plans the shim completes writes of two or more bytes only partly (a legal short count, seeded: 40% or 100% of such writes), so that std's write_all comes back with the rest; a fault position on such a retry is the no-space case in which a part of the entry has reached the file (sites named write-rest)",
@@ -66,13 +66,13 @@ fn op_kind(op: &POp) -> &'static str {
 
 /// Run `plan` with the `nth` fallible call failing. Returns the site hit (None if the fault never
 /// fired) and the first violation.
-fn run_with_fault(dir: &Path, plan: &Plan, nth: i64, errno: i32, short: (u32, u64)) -> (Option<String>, Option<Verdict>, u64) {
+fn run_with_fault(dir: &Path, plan: &Plan, nth: i64, errno: i32, short: (u32, u64), classes: u32) -> (Option<String>, Option<Verdict>, u64) {
     shim::log_reset();
     shim::short_writes(short.0, short.1);
     shim::record_data(false);
     shim::watch(Some(dir));
     if nth >= 0 {
-        shim::fail(FAULT_CLASSES, F_ANY, nth, errno);
+        shim::fail(classes, F_ANY, nth, errno);
     } else {
         shim::fail_off();
     }
@@ -294,6 +294,8 @@ fn run_with_fault(dir: &Path, plan: &Plan, nth: i64, errno: i32, short: (u32, u6
         let after_short = matches!(inj.kind, K_WRITE | K_PWRITE)
             && events[..ix].iter().rev().take_while(|e| !e.is_mark(M_OP_BEGIN)).find(|e| matches!(e.kind, K_WRITE | K_PWRITE) && e.name == inj.name).map(|e| e.result >= 0 && (e.result as u64) < e.b).unwrap_or(false);
         let call = match inj.kind {
+            K_OPEN if inj.a & libc::O_CREAT as u64 == 0 => "open",
+            K_MMAP => "mmap",
             K_OPEN => "create",
             K_WRITE | K_PWRITE if after_short => "write-rest",
             K_WRITE | K_PWRITE => "write",
@@ -305,7 +307,7 @@ fn run_with_fault(dir: &Path, plan: &Plan, nth: i64, errno: i32, short: (u32, u6
         site = Some(format!("{}/{}-{}", if faulted_op_kind.is_empty() { "after-plan" } else { &faulted_op_kind }, call, fk));
     }
     let plan_end = events.iter().position(|e| e.is_mark(M_NOTE)).unwrap_or(events.len());
-    let calls = events[..plan_end].iter().filter(|e| !e.is_mark(M_OP_BEGIN) && !e.is_mark(M_OP_END) && matches!(e.kind, K_OPEN | K_WRITE | K_PWRITE | K_FSYNC | K_FDATASYNC | K_UNLINK) && (e.kind != K_OPEN || e.a & libc::O_CREAT as u64 != 0)).count() as u64;
+    let calls = events[..plan_end].iter().filter(|e| !e.is_mark(M_OP_BEGIN) && !e.is_mark(M_OP_END) && (matches!(e.kind, K_OPEN | K_WRITE | K_PWRITE | K_FSYNC | K_FDATASYNC | K_UNLINK) || (e.kind == K_MMAP && classes & C_MMAP != 0)) && (e.kind != K_OPEN || e.a & libc::O_CREAT as u64 != 0 || classes & C_OPENRD != 0)).count() as u64;
     let _ = ops_done;
     (site, verdict, calls)
 }
@@ -327,8 +329,14 @@ fn plan_case(ctx: &Ctx, case: u64, out: &mut Out) {
     ctx.breadcrumb(case, "counting run");
     // a quarter of the plans each: writes are sometimes / always completed partially first
     let short = (match case % 4 { 1 => 400_000, 3 => 1_000_000, _ => 0 }, Rng::derive(ctx.seed, 0xC20_5000_0000 ^ case).next_u64() | 1);
+    // a quarter of the plans also fails the read side: opening a file for reading and mapping it
+    // (beyond the property's quantifier, inside its statement)
+    let classes = if case % 4 == 2 { FAULT_CLASSES | C_OPENRD | C_MMAP } else { FAULT_CLASSES };
+    if case % 4 == 2 {
+        out.count("plans_with_read_side_faults", 1);
+    }
     let shorts0 = shim::shorts_done();
-    let (_, v0, calls) = run_with_fault(&dir, &plan, -1, 0, short);
+    let (_, v0, calls) = run_with_fault(&dir, &plan, -1, 0, short, classes);
     if short.0 > 0 {
         out.count("plans_with_short_writes", 1);
         out.count("short_writes_in_counting_runs", shim::shorts_done() - shorts0);
@@ -352,7 +360,7 @@ fn plan_case(ctx: &Ctx, case: u64, out: &mut Out) {
         let _ = std::fs::remove_dir_all(&dir);
         std::fs::create_dir_all(&dir).unwrap();
         ctx.breadcrumb(case, &format!("fault position {}", nth));
-        let (site, verdict, _) = run_with_fault(&dir, &plan, nth, errno, short);
+        let (site, verdict, _) = run_with_fault(&dir, &plan, nth, errno, short, classes);
         out.evaluations += 1;
         match &site {
             Some(s) => {
@@ -372,7 +380,7 @@ fn plan_case(ctx: &Ctx, case: u64, out: &mut Out) {
             out.violation(
                 &format!("{}|{}", v.sig, s),
                 format!("case {} fault position {} ({} at {}): {}", case, nth, if errno == libc::ENOSPC { "ENOSPC" } else { "EIO" }, s, v.desc),
-                ctx.replay(case, json!({"fault_position": nth, "errno": errno, "site": s, "short_writes_ppm": short.0, "plan": plan_json(&plan)})),
+                ctx.replay(case, json!({"fault_position": nth, "errno": errno, "site": s, "short_writes_ppm": short.0, "read_side": classes & C_OPENRD != 0, "plan": plan_json(&plan)})),
             );
         }
         if out.samples.len() < 3 && (nth % 41 == 7 || out.samples.is_empty()) {
